@@ -25,6 +25,16 @@ def compute(run, norm, ax, *args):
     return v.x, ex
 
 
+def class_set(run, name, in_source, covered, what):
+    """every class the contracts cover must exist (a missing one is a violation: the statement names it); a class the source has IN ADDITION has no
+    contract - nothing is claimed about it: undecided, never an alarm"""
+    missing, extra = sorted(set(covered) - set(in_source)), sorted(set(in_source) - set(covered))
+    if missing or not extra:
+        run.add(static(name, not missing, f"{what} in source {sorted(in_source)}; contracts cover {sorted(covered)}" + (f"; MISSING {missing}" if missing else "")))
+    else:
+        run.add(undecided(name, f"{what} without a contract: {extra} (new classes are outside what this check decides)"))
+
+
 def ieee_commutativity(run):
     """IEEE-754: T(a, b) and T(b, a) agree IN DOUBLES (both NaN, or within 1e-12) for all doubles a, b of [0, 1].  The real body is evaluated in z3's Float64
     theory twice; additions, multiplications, max and min take their operands in a canonical order (they are commutative bit for bit), so a
@@ -69,8 +79,7 @@ def build(run):
     # the set of norms under contract is read from the source: every concrete subclass of TNorm/SNorm with a closed form
     tn = [c for c in src.subclasses("norm", "TNorm") if c not in ("NormLambda", "NormFunction")]
     sn = [c for c in src.subclasses("norm", "SNorm") if c not in ("NormLambda", "NormFunction")]
-    run.add(static("norm/classes", set(tn) == set(C.TNORMS) and set(sn) == set(C.SNORMS),
-                   f"T-norms in source {sorted(tn)}; S-norms {sorted(sn)}; contracts cover {sorted(C.ALL)}"))
+    class_set(run, "norm/classes", list(tn) + list(sn), list(C.TNORMS) + list(C.SNORMS), "T-norms and S-norms")
     for norm in list(C.TNORMS) + list(C.SNORMS):
         fq = f"norm.{norm}.compute"
         if not src.has_func("norm", f"{norm}.compute"):
